@@ -98,6 +98,10 @@ package cdcn
 //@ type *parser_
 //@   hypothesis this.tokens_ != nil ==> nonnilq(this.tokens_)
 
+//@ func (*parserClass_).Make
+//@   props C12 C19
+//@   implements ParserClassLike.Make
+
 //@ func (*parser_).putBack
 //@   props C12 C11 C19
 //@   safe
